@@ -74,18 +74,21 @@ def verify(src, name):
 
 
 def run(name, props, tier="quick"):
+    # SEED_REPO: the tree the patch is applied to (default /repo; a scratch worktree when /repo is busy -
+    # then SEED_VERIF must be a copy of /verif whose harness and lib point at that worktree)
+    REPO = os.environ.get("SEED_REPO", "/repo")
     d = os.path.join(SEEDED, name)
     meta = json.load(open(os.path.join(d, "meta.json")))
     props = props or [meta["property"]]
-    rc, out = sh(["git", "-C", "/repo", "status", "--porcelain", "--untracked-files=no"])
+    rc, out = sh(["git", "-C", REPO, "status", "--porcelain", "--untracked-files=no"])
     if out.strip():
-        sys.exit("/repo is dirty: " + out)
-    rc, out = sh(["git", "-C", "/repo", "apply", os.path.join(d, "patch.diff")])
+        sys.exit(REPO + " is dirty: " + out)
+    rc, out = sh(["git", "-C", REPO, "apply", os.path.join(d, "patch.diff")])
     if rc:
         # the patch was made before the hook commits; fall back to a fuzzy apply
-        rc, out = sh("patch -p1 -F3 --no-backup-if-mismatch < %s" % os.path.join(d, "patch.diff"), cwd="/repo")
+        rc, out = sh("patch -p1 -F3 --no-backup-if-mismatch < %s" % os.path.join(d, "patch.diff"), cwd=REPO)
         if rc:
-            sh(["git", "-C", "/repo", "checkout", "--", "."])
+            sh(["git", "-C", REPO, "checkout", "--", "."])
             sys.exit("patch does not apply: " + out)
     res = {}
     try:
@@ -100,8 +103,8 @@ def run(name, props, tier="quick"):
             if rc == 2:
                 print(out[-1500:])
     finally:
-        sh(["git", "-C", "/repo", "checkout", "--", "."])
-        sh("git -C /repo clean -fdq -e target")
+        sh(["git", "-C", REPO, "checkout", "--", "."])
+        sh("git -C %s clean -fdq -e target" % REPO)
     meta.setdefault("results", {}).update(res)
     json.dump(meta, open(os.path.join(d, "meta.json"), "w"), indent=1)
     return res
